@@ -29,6 +29,7 @@ type ddesc struct{ num, size, idx byte }
 
 type defn struct {
 	local  byte
+	resv   byte // the reserved byte after the record header (readers ignore it)
 	arch   byte // 0 little, 1 big
 	global uint16
 	fields []fdef
@@ -44,7 +45,7 @@ func (b *recs) def(d defn) {
 		h |= 0x20
 	}
 	b.WriteByte(h)
-	b.WriteByte(0)
+	b.WriteByte(d.resv)
 	b.WriteByte(d.arch)
 	if d.arch == 0 {
 		binary.Write(b, binary.LittleEndian, d.global)
@@ -82,14 +83,32 @@ func fileIdRecs(ftype byte, arch byte) []byte {
 }
 
 type frameOpts struct {
-	hdrSize  int  // 12 or 14
-	zeroCRC  bool // 14-byte header with CRC field 0
-	proto    byte
-	profile  uint16
-	badTag   bool
+	hdrSize int  // 12 or 14
+	zeroCRC bool // 14-byte header with CRC field 0
+	proto   byte
+	profile uint16
+	badTag  bool
 }
 
 func defaultFrame() frameOpts { return frameOpts{hdrSize: 14, proto: 0x20, profile: 2115} }
+
+// randFrame: the header variety readers accept — 12 bytes, 14 bytes with a zero CRC field or with
+// its CRC; protocol versions 0.x, 1.x and 2.x with any minor version; any profile version.
+func randFrame(r *rng) frameOpts {
+	fo := defaultFrame()
+	if r.chance(30) {
+		fo.hdrSize = 12
+	} else if r.chance(15) {
+		fo.zeroCRC = true
+	}
+	if r.chance(35) {
+		fo.proto = []byte{0x10, 0x00, 0x21, 0x2F, 0x15, 0x1F, 0x2A}[r.intn(7)]
+	}
+	if r.chance(30) {
+		fo.profile = uint16(r.next())
+	}
+	return fo
+}
 
 // frame wraps record bytes into header + data + file CRC.
 func frame(records []byte, o frameOpts) []byte {
